@@ -22,14 +22,27 @@ def main():
     import tables
     tables.gen_utf8()
     tables.gen_tables()
+    # sanitizer variants of the library (used by C01/C04 and C17): built here, concurrently with the Coq build, so that
+    # the quick checks only do an incremental rebuild
+    import threading
+    variants = os.environ.get("VERIF_SETUP_VARIANTS", "lib-asan lib-tsan").split()
+    vlog = []
+
+    def _variants():
+        for variant in variants:
+            try:
+                V.build_lib(variant, vlog)
+            except Exception as e:  # a check that needs the variant will retry and report
+                vlog.append("build of %s failed in setup: %r" % (variant, str(e)[-300:]))
+    th = threading.Thread(target=_variants)
+    th.start()
     # Coq: everything
     mk = V.coq_project()
     rc, out = V.sh("timeout 3000 make -f " + mk + " -k -j%d 2>&1 | grep -v '^Closed under\\|^$' | tail -40" % V.NPROC, cwd=V.COQ,
                    timeout=3100)
     print(out[-3000:], flush=True)
-    # sanitizer variants used by some checks are built lazily by those checks (cached under .build/)
-    for variant in os.environ.get("VERIF_SETUP_VARIANTS", "").split():
-        V.build_lib(variant, log)
-        print(log[-1], flush=True)
+    th.join()
+    for l in vlog:
+        print(l, flush=True)
     print("setup done in %.0fs" % (time.time() - t0))
     return 0
